@@ -360,7 +360,7 @@ impl<T: Flt> Runner<T> {
     }
 
     fn arm(&self, supplied: usize) {
-        if self.cfg.kind.is_sinc() && self.cfg.kernel == Kernel::Probe {
+        if self.cfg.kind.is_sinc() && self.cfg.kernel == Kernel::Probe && self.sig == Signal::Index {
             let l2 = 2 * self.cfg.filter_len() as isize;
             probe::arm(l2 - self.pos as isize, l2 + supplied as isize);
         } else {
